@@ -802,6 +802,9 @@ func trGenInst(rng *vh.Rng, idx int, wide bool) trInst {
 		switch m.Mode {
 		case 0:
 			n := rng.Intn(6)
+			if rng.Intn(25) == 0 { // a line of 1000-3000 bytes
+				n = 60 + rng.Intn(100)
+			}
 			for i := 0; i < n; i++ {
 				m.Addrs = append(m.Addrs, trAddr(rng))
 			}
@@ -886,6 +889,9 @@ func trGenKernel(rng *vh.Rng, wide bool, small bool) trKernel {
 		k.Header.LocalBase = 0
 		k.Header.KernelID = trI32(rng)
 		k.Header.Shmem = 2147483647
+	}
+	if rng.Intn(12) == 0 { // a `-kernel name` line of 1000-3000 bytes
+		k.Header.Name += strings.Repeat("y", 1000+rng.Intn(2000))
 	}
 	maxB, maxW, maxI := 5, 5, 7
 	if small {
